@@ -167,11 +167,19 @@ class Machine:
         fakes.set_phase("build")
         self.env = G.new_env(self.recipe)
 
+    def _gen_state(self, gname):
+        """The piece of generator STATE a recipe generator draws from.  default_rng/RandomState
+        generators own their state; every generator of kind "module" is the one process-global
+        ``da.random`` state (``da.random.seed(s)`` re-seeds it for all of them), so two recipe
+        generators of that kind alias each other whatever their names and seeds."""
+        spec = self.recipe.get("generators", {}).get(gname) or {}
+        return "<module-global>" if spec.get("kind") == "module" else gname
+
     def _with_generator_groups(self, need):
-        """Random arrays drawn from one generator object are built together, in program
-        order, so every build of the group consumes the generator identically."""
+        """Random arrays drawn from one generator state are built together, in program
+        order, so every build of the group consumes (and re-seeds) that state identically."""
         steps = self.recipe["steps"]
-        gens = {steps[i]["args"]["gen"] for i in need if steps[i]["op"] == "random"}
+        gens = {self._gen_state(steps[i]["args"]["gen"]) for i in need if steps[i]["op"] == "random"}
         if not gens:
             return need
         out = set(need)
@@ -179,13 +187,13 @@ class Machine:
         while changed:
             changed = False
             for i, s in enumerate(steps):
-                if s["op"] == "random" and s["args"]["gen"] in gens and i not in out:
+                if s["op"] == "random" and self._gen_state(s["args"]["gen"]) in gens and i not in out:
                     for j in G.needed_steps(self.recipe, s["out"]):
                         if j not in out:
                             out.add(j)
                             changed = True
                             if steps[j]["op"] == "random":
-                                gens.add(steps[j]["args"]["gen"])
+                                gens.add(self._gen_state(steps[j]["args"]["gen"]))
         return sorted(out)
 
     # ------------------------------------------------------------------ building
